@@ -1104,7 +1104,6 @@ impl Task {
                         .cache()
                         .upsert(t)
                         .unwrap_or_else(|err| error!("update_data upsert={}", err));
-                    break;
                 }
             }
         }
